@@ -139,6 +139,7 @@ func runC08(c *Ctx) {
 	r := c.R
 	defer rulePeekLifetime(c, "R8.5", "C08: a frame held by the application or queued for forwarding keeps its own payload bytes")
 	defer ruleV1Gate(c, "R8.6")
+	defer ruleWriteAPIs(c, "R8.8")
 	defer borrowRules(c, "C01", runC01inner, map[string]string{"R1.6": "R8.7"}, "a forwarded full-size signed frame must leave whole, and what is marshalled is the frame's own payload")
 	r.NotDecided = append(r.NotDecided,
 		"byte identity of forwarded frames as an observed fact (R8.1 is its code-shape part)",
